@@ -186,7 +186,10 @@ def dump(fl, limit=60):
                 pre = "(nons) "
             lines.append("%s<%s%s>" % (ind, pre, r[3]))
             for a in r[4]:
-                lines.append("%s  %s%s=\"%s\"" % (ind, ("{%s}" % a[0]) if a[0] else "", a[1], a[2]))
+                if len(a) == 2:
+                    lines.append("%s  %s=\"%s\"" % (ind, a[0], a[1]))
+                else:
+                    lines.append("%s  %s%s=\"%s\"" % (ind, ("{%s}" % a[0]) if a[0] else "", a[1], a[2]))
         elif k == "text":
             lines.append('%s"%s"' % (ind, r[2]))
         elif k == "comment":
@@ -230,4 +233,28 @@ def flat_ref(root):
             out.append((d, "comment", n.data))
         elif k == "doctype":
             out.append((d, "doctype", n.name or "", n.public or "", n.system or ""))
+    return out
+
+
+def minidom_colon_model(fl):
+    """Known-finding transformer (C04-dom-colon-attrs / C04-dom-doctype-colon): what xml.dom.minidom keeps of a tree.
+    minidom indexes un-namespaced attributes by the part of their name after the first colon as well, so setting
+    'href' after 'x:href' (or ':href') removes the earlier attribute; DocumentType keeps only the part of its name
+    after the first colon.  Works on flat trees with (ns, local, value) attributes."""
+    out = []
+    for r in fl:
+        if r[1] == "elem":
+            kept = []
+            for a in r[4]:
+                if a[0] is None:
+                    key = (None, a[1].split(":", 1)[-1])
+                else:
+                    key = (a[0], a[1])
+                kept = [(k, b) for (k, b) in kept if k != key and not (b[0] is None and a[0] is None and b[1] == a[1])]
+                kept.append((key, a))
+            out.append((r[0], "elem", r[2], r[3], tuple(b for _, b in kept)))
+        elif r[1] == "doctype":
+            out.append((r[0], "doctype", r[2].split(":", 1)[-1], r[3], r[4]))
+        else:
+            out.append(r)
     return out
